@@ -293,6 +293,27 @@ theorem stream_cut_inside_item (max : Nat) (t : Item) (h : t.InRange) (k : Nat) 
     ∀ bs, (recv max { wire := (enc t).take k, sched := sched }).res ≠ .msg bs :=
   recv_truncated max (enc t) k sched (enc_framed t h) hk
 
+/-! ### 9. any wire at all (hostile or corrupted streams) -/
+
+/-- 9. No hypothesis on the bytes on the wire, on the schedule (zero-length reads, errors anywhere) or on
+    the limit: `Recv` consumes a PREFIX of the wire, in order (`got`; nothing is skipped, reordered or
+    invented); if it returns a message, the message is exactly the consumed prefix — so not one byte
+    after the message has been taken from the transport —, it is one complete frame as announced by its
+    own header, and it is not longer than the configured limit. (Theorems 1, 2, 6 are the instances
+    for wires that consist of frames; this one also covers garbage, half frames and lying headers.) -/
+theorem recvC_any_wire (c0 max : Nat) (t : Transport) :
+    ∃ got, t.wire = got ++ (recvC c0 max t).t.wire ∧
+      ∀ bs, (recvC c0 max t).res = .msg bs → bs = got ∧ Framed bs ∧ (max = 0 ∨ bs.length ≤ max) :=
+  recvC_any c0 max t
+
+/-- 9a. A message above the limit is never returned, whatever the peer sends. -/
+theorem recvC_never_above_limit (c0 max : Nat) (hmax : 0 < max) (t : Transport) (bs : Bytes)
+    (h : (recvC c0 max t).res = .msg bs) : bs.length ≤ max := by
+  obtain ⟨_, _, h2⟩ := recvC_any c0 max t
+  rcases (h2 bs h).2.2 with h0 | hle
+  · omega
+  · exact hle
+
 /-! ### non-vacuity -/
 
 /-- the 16 bytes of an Integer item (tag 0x42000A, value 1). -/
